@@ -313,8 +313,10 @@ def run(ctx):
         flds = dict(zip(p.end[1][5], a[2]))
         okr = okr and isinstance(flds.get("version"), tuple) and flds["version"][0] in ("havoc", "mutated") and flds["version"][1] == loc["version"] \
             and isinstance(flds.get("pkgrevision"), tuple) and flds["pkgrevision"][0] == "havoc" and flds["pkgrevision"][1] == loc["pkgrevision"]
-        endc = [c for c in p.conds() if isinstance(c.term, tuple) and c.term[0] == "binop" and c.term[1] == "Eq" and is_call(c.term[3], "str>::len", "String::len")]
-        okr = okr and bool(endc) and endc[-1].fact == ("eq", True)
+        # the loop is left when cursor == len, however the test is spelled (==, !=, <, >=)
+        endc = [c for c in p.conds() if isinstance(c.term, tuple) and c.term[0] == "binop" and c.term[1] in ("Eq", "Ne", "Lt", "Ge") and is_call(c.term[3], "str>::len", "String::len")
+                and isinstance(c.term[2], tuple) and c.term[2][0] == "havoc" and c.term[2][1] == loc["idx"]]
+        okr = okr and bool(endc) and endc[-1].fact == ("eq", endc[-1].term[1] in ("Eq", "Ge"))
     ctx.check(okr, "D1-RESULT", DV, "returns-components", "returns (version, pkgrevision) when the cursor reaches the end", "DeweyVersion::new does not return the collected components at end of input", fn_span(body), nontrivial=False)
     # purity: a function of the string alone
     impure = sorted({t["func"]["path"] for _, t in body.calls() if not (t["func"]["path"].startswith(("core::", "std::", "alloc::", "<std::", "<core::", "<alloc::", "dewey::")))})
